@@ -289,6 +289,8 @@ fn case(case: u64, rng: &mut Rng, st: &mut Stats, n_ops: usize) {
 }
 
 fn main() {
+    // tasks are polled by hand in this binary: see vcore::run::use_plain_block_on
+    vcore::run::use_plain_block_on();
     let mut run = Run::from_args(
         "C02",
         "exploration",
